@@ -14,14 +14,16 @@ MANIFEST = dict(
 GEN = ["Timing", "Errors"]
 THEOREMS = [
     "c01_result_sound", "c01_never_foreign", "c01_foreign_kinds", "c01_timeout_complete",
-    "c01_complete", "c01_single_request_written", "c01_id_type_sensitive",
+    "c01_complete", "c01_single_request_written", "c01_id_type_sensitive", "c01_siblings_independent",
 ]
 RULE = (
     "timed histories over {matching result, matching error, same-id server request, other-id response, int/str "
     "twin of the id, notification, progress (own/foreign token), batch containing a matching response}: every word of "
     "length<=3 (quick) / <=4 (thorough) x 8 time placements around poll boundaries and the deadline x 2 tie orders, "
     "plus seeded histories of length<=12; real send_message under the virtual-time loop vs Await.run; non-trivial = "
-    "distinct case with at least one event"
+    "distinct case with at least one event; siblings: 2-3 requests in one process (sequential with idle gaps / concurrent on "
+    "separate connections) with equal or twin ids and strays bearing the siblings' ids, vs Await.runSeq without a token; "
+    "write stream open / closed / blocked after the request; a call still running after deadline + 4 polls + 1 s is observed as hung"
 )
 TRUSTED = ["anyio memory streams / cancel scopes / asyncio scheduling (sampled under the virtual-time loop)"]
 ASSUMPTIONS = [
@@ -142,5 +144,85 @@ class Histories(Suite):
         return G.shrink_candidates(case)
 
 
+class Siblings(Suite):
+    """2-3 requests in ONE process, one after the other or side by side on separate connections,
+    whose ids are equal or twins of each other and whose histories carry responses bearing the
+    siblings' ids: anything the library keeps between calls or across connections shows here."""
+    name = "siblings"
+    parallel = True
+
+    def cases(self, ctx, budget):
+        rng = ctx.sub_rng("c01-siblings", budget)
+        pool = [{"s": "abc"}, {"s": "7"}, {"i": 7}, {"s": "x-1"}, {"i": 0}, {"s": "0"}]
+        out = []
+        for _ in range(1500 if budget == "quick" else 60000):
+            n = rng.choice([2, 2, 3])
+            same = rng.random() < 0.6
+            ids = [rng.choice(pool)] * n if same else [rng.choice(pool) for _ in range(n)]
+            reqs = []
+            for j in range(n):
+                c = G.seeded(rng, ["R", "E", "N", "O", "Q", "T", "B"], max_len=4, ids=[ids[j]], progress_p=0.0)
+                for key in ("cancelAt", "pre", "hasToken", "cbRaises", "tie", "writer"):
+                    c.pop(key, None)
+                # strays bearing the siblings' ids (what a later sibling must never be handed)
+                for jj in range(n):
+                    if jj != j and rng.random() < 0.7:
+                        a = rng.choice([1, 5, c["D"] // 2, max(1, c["D"] - 1)])
+                        c["ev"].append([a, {"k": "resp", "id": ids[jj], "p": {"stray-for": jj, "seen-by": j}}])
+                if rng.random() < 0.5:  # the request's own answer is absent: only a timeout is right
+                    c["ev"] = [[a, e] for a, e in c["ev"] if not ("$ID" in repr(e) and e["k"] in ("resp", "err", "batch"))]
+                c["ev"].sort(key=lambda x: x[0])
+                reqs.append(G.place(c))
+            out.append({"mode": rng.choice(["seq", "par"]), "tie": rng.choice(["events", "timers", "io"]), "fire": None,
+                        "gaps": [rng.choice([0, 1, 600]) for _ in range(n)], "reqs": reqs, "noToken": True})
+        return out
+
+    def impl_batch(self, cases):
+        return [H.run_seq(c) for c in cases]
+
+    def model_line(self, case, o=None):
+        if o is None or any(x.get("harness_errors") for x in o):
+            return None
+        return H.seq_model_line(case, o)
+
+    def model_obs(self, out, case):
+        return [H.model_shape(x) for x in out]
+
+    def compare(self, case, o, m):
+        from ..core import canon
+        return None if canon([H.impl_shape(r, x) for r, x in zip(case["reqs"], o)]) == canon(m) else "differs"
+
+    def kind(self, case, o):
+        ids = [repr(r.get("id")) for r in case["reqs"]]
+        return f"siblings/{case['mode']}/{len(o)}/{'same-id' if len(set(ids)) == 1 else 'mixed'}/" + "+".join(x["outcome"] for x in o)
+
+    def nontrivial(self, case, o):
+        return True
+
+    def oracle(self, case, o):
+        if any(x.get("harness_errors") for x in o):
+            return None
+        base = Histories()
+        for i, (r, x) in enumerate(zip(case["reqs"], o)):
+            v = base.oracle(dict(r, tie=case["tie"]), x)
+            if v is not None:
+                key, what, exp = v
+                return ("siblings/" + key, f"request {i} of {len(o)} ({case['mode']}): {what}", exp)
+        return None
+
+    def shrink_candidates(self, case):
+        if len(case["reqs"]) > 1:
+            for i in range(len(case["reqs"])):
+                c = dict(case)
+                c["reqs"] = case["reqs"][:i] + case["reqs"][i + 1:]
+                yield c
+        for i, r in enumerate(case["reqs"]):
+            for j in range(len(r["ev"])):
+                c = dict(case)
+                c["reqs"] = [dict(x) for x in case["reqs"]]
+                c["reqs"][i]["ev"] = r["ev"][:j] + r["ev"][j + 1:]
+                yield c
+
+
 def suites():
-    return [Histories()]
+    return [Histories(), Siblings()]
